@@ -17,6 +17,7 @@
 //   key <ediv> <rand> find_key                         -> <hex> | none
 //   status            local / link pairing status      -> <local> <link>   (none | unauth | auth | authsc)
 //   reset <a>         new connection from peer a       -> -
+//   bond <a> <ediv> <rand> <kb>  pre-load the bond data base (peer a, key kb x 16; ediv < 2^16) -> -
 #include "verif_common.hpp"
 #include <type_traits>
 #include <utility>
